@@ -2,6 +2,9 @@
 
 case   : <A> <C> <mem> <op> ...     A = buffer address (the C driver maps a region at a fixed address, so A is exact),
          C = capacity, mem=1: small arena with dirtied memory and write detection, mem=0: nominal (huge) capacity.
+         mem=1n / 0n: a history RESERVED for the library's normal build (-DNDEBUG, assertions compiled out): it has
+         aligned_alloc requests whose size is not a multiple of the alignment; model = BumpNdebug.bump_run_nd,
+         spec = BumpNdebug.spec_check_nd (theorems: coq/Properties_C09_ndebug.v); only gen_ndebug produces them.
 ops    : M<n> C<nmemb>,<size> R<id|N>,<n> F<id|N> A<alignment>,<n> E<id|N>   (id = index of the op that allocated)
 output : one token per op (p<offset>[z<0|1>] | NULL | void | skip | ABORT) || i<top>,<last> then <top>,<last>,<bytes written>
 L1     : the extracted Coq spec checker (BumpSpec.spec_check: shadow list of live blocks + frontier) judges the
@@ -15,13 +18,22 @@ PROPS = "Properties_C09"
 NDEBUG_TOO = True     # the library's normal build compiles assertions out: the same histories run against that build too
 
 
+def is_nd(case):
+    """the case carries the flag n after the mem digit: NDEBUG semantics (model bump_run_nd, spec spec_check_nd)"""
+    t = case.split(None, 3)
+    return len(t) >= 3 and t[2].endswith("n")
+
+
 def ndebug_case(case, model_line):
-    """histories whose expected outcome contains an assertion failure have no counterpart without assertions"""
+    """histories whose expected outcome contains an assertion failure have no counterpart without assertions
+    (for a flagged case ABORT can only mean an alignment that is not a power of two >= 8: undefined without the
+    assertion, never generated)"""
     return "ABORT" not in model_line
 
 # leaf functions / constants of bump_allocator.c are re-translated from the C source on every run (tools/translate_leaf.py ->
 # coq/gen/Leaf.v, Constants.v) and re-proved equal to the model's (coq/Properties_leaf_bump.v)
-EXTRA_PROPS = ["Properties_leaf_bump"]
+# Properties_C09_ndebug: aligned_alloc without the size assertion (the normal build), every size
+EXTRA_PROPS = ["Properties_leaf_bump", "Properties_C09_ndebug"]
 
 
 def REGEN(ctx):
@@ -37,13 +49,20 @@ RULE = ("request histories (1..40 ops of malloc/calloc/realloc/free/aligned_allo
         "from {0,1,7,8,9,..., remaining+-{0,1,7,8,9}, 2^63, 2^64-k, overflowing calloc products}; plus ALL histories of "
         "depth 3 (quick) / 4 (thorough) over {M0,M8,M9,C1x9,A16x16,R<j>,1,R<j>,17,F<j>} x 8 residues x capacities {16,24,40}; a case is "
         "non-trivial when it has >= 2 successful allocations and >= 1 free/realloc/aligned request, distinct case "
-        "strings counted")
+        "strings counted.  All of these (minus those the model answers with ABORT) are run a second time against the "
+        "sources built with -DNDEBUG, together with histories reserved for that build (flag n; counted separately "
+        "under ndebug_build / ndebug_reserved): the same generators and capacities/residues, but aligned_alloc sizes "
+        "that are NOT multiples of the alignment (1, 20, odd, al+-1, k*al+-1, remaining+-{0,1,7,8,9}, huge), each "
+        "followed by malloc/calloc/realloc/free/aligned requests; scripted ones on every residue x capacities 0..56; "
+        "judged by spec_check_nd and compared with bump_run_nd")
 ASSUMPTIONS = [
     "buffer address A > 0 and A + C < 2^64 (true of every real buffer); 64-bit size_t/uintptr_t (static assert in the driver)",
     "the theorems cover every capacity with A + C < 2^64; the differential runs use capacities <= PTRDIFF_MAX (2^63-1), "
     "the largest object C allows (beyond it the code's own pointer arithmetic is undefined and UBSan stops it)",
     "caller protocol: free/realloc only of live blocks or NULL (stale pointers are not passed on: 'skip'); frees in any order are in scope",
     "aligned_alloc preconditions as asserted by the code: alignment a power of two >= 8, size a multiple of it (violations: both sides must abort)",
+    "NDEBUG build: the size need not be a multiple of the alignment (modelled and proved for every size: Properties_C09_ndebug); "
+    "the alignment must still be a power of two >= 8 (without the assertion a violation is undefined: never requested)",
     "a zero-size block occupies one unit (it has an address of its own), as the repaired code does",
 ]
 
@@ -113,7 +132,27 @@ def pick_size(r, rem):
     return r.randint(0, W - 1)
 
 
-def gen_case(r, big=False, maxops=25, residue=None):
+def nd_size(r, al, rem, pad):
+    """a size for aligned_alloc(al, .) that is (almost always) NOT a multiple of al"""
+    room = rem - pad
+    x = r.random()
+    if x < 0.30:
+        n = r.choice([1, 1, 7, 9, 12, 13, 15, 17, 20, 20, 23, 25, 33, 41, 57])
+    elif x < 0.50:
+        n = r.choice([al + 1, al - 1, al + 4, al - 4, al + 8, al - 8, al // 2, al // 2 + 1, 2 * al - 1, 2 * al + 1, 3 * al - 7])
+    elif x < 0.85:
+        n = room + r.choice([0, 0, 1, -1, 7, -7, 8, -8, 9, -9, -15, -16, -17, 4, -4])
+    elif x < 0.92:
+        n = r.choice(BIG + [W - al + 1, W - al - 1, W - 3, (1 << 63) + 5])
+    else:
+        n = r.randint(0, max(1, room + 16))
+    n = max(0, min(W - 1, n))
+    if n % al == 0 and r.random() < 0.9:
+        n = n + r.choice([1, 3, 4, 7]) if n + 7 < W else n - 1
+    return n
+
+
+def gen_case(r, big=False, maxops=25, residue=None, nd=False):
     low = r.randrange(8) if residue is None else residue
     hi = r.choice([0, 0, 8, 16, 32, 64, 128, 2048, 4096 - 8, 65536 - 8, r.randrange(0, 1 << 16) & ~7])
     A = BASE + (1 << 20) + hi + low
@@ -128,7 +167,7 @@ def gen_case(r, big=False, maxops=25, residue=None):
     nops = r.randint(1, maxops)
     allocs = []                         # indices of allocation ops (successful or not)
     for i in range(nops):
-        k = r.choices("MCRFAE", weights=[30, 12, 16, 18, 12, 4])[0]
+        k = r.choices("MCRFAE", weights=[24, 10, 16, 16, 28, 6] if nd else [30, 12, 16, 18, 12, 4])[0]
         rem = sim.C - sim.top
         if k in "RFE" and not sim.live and r.random() < 0.8:
             k = "M"
@@ -181,6 +220,8 @@ def gen_case(r, big=False, maxops=25, residue=None):
             kmax = max(0, (rem - pad)) // al
             cnt = r.choice([0, 1, 1, 2, kmax, kmax, kmax + 1, max(0, kmax - 1), (W // al) - 1])
             n = min(cnt, (W - 1) // al) * al
+            if nd and r.random() < 0.85:
+                n = nd_size(r, al, rem, pad)
             sim.aligned(al, n, i)
             allocs.append(i)
             ops.append("A%d,%d" % (al, n))
@@ -197,10 +238,28 @@ def gen_case(r, big=False, maxops=25, residue=None):
                 sim.free(int(t))
             ops.append("%s%s" % (k, t))
     # rarely: end with a request outside aligned_alloc's preconditions (both sides must abort)
-    if r.random() < 0.02:
+    if not nd and r.random() < 0.02:
         ops.append(r.choice(["A0,0", "A4,8", "A24,48", "A16,8", "A12,24", "A8,12", "A1,5"]))
         ops.append("M8")
-    return "%d %d %d %s" % (A, C, 0 if big else 1, " ".join(ops))
+    if nd and not any(odd_aligned(o) for o in ops[:-1]):
+        # at least one aligned request with a size the assertion would refuse, and something after it
+        al = r.choice([8, 16, 16, 32, 64])
+        i = len(ops)
+        n = nd_size(r, al, sim.C - sim.top, (-(A + sim.top)) % al)
+        if n % al == 0:
+            n += 1
+        sim.aligned(al, n, i)
+        ops.append("A%d,%d" % (al, n))
+        ops.append(r.choice(["M1", "M8", "M0", "A8,1", "A16,16", "R%d,9" % i, "F%d" % i] + ([] if big else ["C1,3"])))
+    return "%d %d %d%s %s" % (A, C, 0 if big else 1, "n" if nd else "", " ".join(ops))
+
+
+def odd_aligned(op):
+    """an aligned_alloc request whose size is not a multiple of its alignment"""
+    if op[0] != "A":
+        return False
+    al, n = op[1:].split(",")
+    return int(al) > 0 and int(n) % int(al) != 0
 
 
 def gen(ctx, seed, tier):
@@ -214,6 +273,72 @@ def gen(ctx, seed, tier):
     cases += sweep(8 if tier == "quick" else 3)
     cases += exhaustive(3, [16, 24, 40]) if tier == "quick" else exhaustive(4, [16, 24, 40])
     return cases
+
+
+# histories for the build without assertions: aligned_alloc with sizes that are not multiples of the alignment,
+# then requests of every kind (the next block must again be 8-aligned and apart; realloc/free of the odd block)
+SCRIPTS_ND = [
+    "A16,20 M1", "A16,20 M8 M8", "A8,1 A8,7 A8,9 M1", "A16,1 M8 F0 M1", "A32,33 R0,41 A8,1 F2 C1,7", "A16,17 F0 A16,15 M0",
+    "M3 A64,1 E1 A16,9 R2,30 M1", "A16,0 A16,20 A8,12 M8", "A16,12 C1,5 R1,3 M1", "A8,13 R0,20 R0,1 A16,4 E0 E3 M9",
+    "M8 A16,9 A16,9 F1 A32,5 M1", "A16,24 A16,40 M1", "A8,20 C3,3 F1 A8,5 RN,8", "A16,15 A16,1 A16,31 F2 F1 F0 A8,47",
+]
+
+
+def sweep_nd(step, caps=57):
+    out = []
+    for res in range(8):
+        for C in range(0, caps):
+            for j, s in enumerate(SCRIPTS_ND):
+                if (C + j + res) % step == 0:
+                    out.append("%d %d 1n %s" % (BASE + (1 << 20) + 64 + res, C, s))
+    return out
+
+
+def exhaustive_nd(depth, caps):
+    """ALL histories of the given depth over an alphabet with odd-size aligned requests x 8 residues x capacities"""
+    base = ["M1", "M8", "A16,20", "A8,1", "A16,9"]
+    hist = [[]]
+    for i in range(depth):
+        alpha = base + [x for j in range(i) for x in ("R%d,9" % j, "F%d" % j)]
+        hist = [h + [a] for h in hist for a in alpha]
+    hist = [h for h in hist if any(odd_aligned(o) for o in h[:-1])]
+    out = []
+    for res in range(8):
+        for C in caps:
+            hdr = "%d %d 1n " % (BASE + (1 << 20) + 128 + res, C)
+            out += [hdr + " ".join(h) for h in hist]
+    return out
+
+
+# regression inputs for the NDEBUG pass (they cannot live in corpus/C09.txt: the corpus also runs against the default
+# build, where these requests stop at the assertion): found by this check on seeded changes of aligned_alloc
+ND_CORPUS = [
+    "35184373199224 37 1n A32,17 C0,16",        # aligned_alloc that commits top itself without rounding the size
+    "35184373137472 64 1n A16,20 M1",
+    "35184373137475 100 1n M3 A32,33 R1,41 A8,1 F3 C1,7",
+]
+
+
+def gen_ndebug(ctx, seed, tier):
+    """cases reserved for the pass against the sources built with -DNDEBUG (the library's normal configuration):
+    histories with aligned_alloc sizes that the assertion of the default build refuses"""
+    r = ctx.rng("gen-ndebug", seed)
+    n_small, n_big = (420, 100) if tier == "quick" else (4500, 1200)
+    cases = list(ND_CORPUS)
+    for i in range(n_small):
+        cases.append(gen_case(r, False, maxops=16 if i % 7 else 30, residue=i % 8, nd=True))
+    for i in range(n_big):
+        cases.append(gen_case(r, True, maxops=12, residue=i % 8, nd=True))
+    cases += sweep_nd(16 if tier == "quick" else 2)
+    if tier != "quick":
+        cases += exhaustive_nd(3, [24, 40])
+    seen, out = set(), []
+    for c in cases:
+        if c not in seen:
+            seen.add(c)
+            out.append(c)
+    ctx.c09_nd_reserved = out
+    return out
 
 
 SCRIPTS = [
@@ -328,8 +453,38 @@ def run_model(ctx, cases):
     return ms, ss
 
 
+def extra_coverage(ctx):
+    """what the histories reserved for the NDEBUG build exercised (measured on that build's own output)"""
+    cases = getattr(ctx, "c09_nd_reserved", None)
+    if not cases:
+        return {}
+    odd = {"requests": 0, "ptr": 0, "NULL": 0, "other": 0}
+    after = {"ptr": 0, "NULL": 0, "void": 0, "skip": 0, "other": 0}
+    aligns = {}
+    for c in cases:
+        ops = c.split()[3:]
+        toks = ctx.c09_impl.get(c, "").split()
+        seen_odd_ptr = False
+        for o, t in zip(ops, toks):
+            kind = "ptr" if t.startswith("p") else t if t in ("NULL", "void", "skip") else "other"
+            if seen_odd_ptr:
+                after[kind] += 1
+            if odd_aligned(o):
+                odd["requests"] += 1
+                odd[kind if kind in odd else "other"] += 1
+                al = o[1:].split(",")[0]
+                aligns[al if int(al) <= 4096 else ">4096"] = aligns.get(al if int(al) <= 4096 else ">4096", 0) + 1
+                seen_odd_ptr = seen_odd_ptr or kind == "ptr"
+    return {"ndebug_reserved": {"histories": len(cases), "distinct_nontrivial": len(set(c for c in cases if nontrivial(c))),
+                                "aligned_requests_with_size_not_multiple_of_alignment": odd,
+                                "responses_after_a_successful_one": after, "alignments": aligns,
+                                "nominal_huge_capacity": sum(1 for c in cases if c.split()[2].startswith("0"))}}
+
+
 def nontrivial(c):
     ops = c.split()[3:]
+    if is_nd(c) and not any(odd_aligned(o) for o in ops[:-1]):
+        return False        # a reserved history is about what follows an aligned request of odd size
     return sum(o[0] in "MCA" for o in ops) >= 2 and any(o[0] in "RFEA" for o in ops)
 
 
